@@ -36,7 +36,7 @@ class ListingFake:
 
 
 def key_name(k):
-    sfx = {"end": ".mos.xml", "mid": ".mos.xml.bak", "none": ".txt"}[k["suf"]]
+    sfx = {"end": ".mos.xml", "mid": ".mos.xml.bak", "none": ".txt", "upper": ".MOS.XML"}[k["suf"]]
     return "%s/%02d%s" % ("run1" if k["under"] else "zzz", k["n"], sfx)
 
 
@@ -49,15 +49,17 @@ def list_case(cid, b):
     hows = [("key", dict(prefix=names[pk - 1]))] if pk else \
         [("prefix", dict(prefix="run1/"))] if b["prefixGiven"] else [("empty", dict(prefix="")), ("none", dict())]
     for how, kw in hows:
-        for sfx in ("default", "explicit"):
+        for sfx in ("default", "explicit", "upper"):
             fake = ListingFake(names, b["size"])
             s3mod.s3._client = fake
             s3mod.s3._resource = fake
             args = dict(kw)
             if sfx == "explicit":
                 args["suffix"] = ".mos.xml"
+            elif sfx == "upper":
+                args["suffix"] = ".MOS.XML"
             ev = {"id": "%s.%s.%s" % (cid, how, sfx), "k": "list", "keys": b["keys"], "prefixGiven": b["prefixGiven"], "prefixKey": pk,
-                  "size": b["size"], "how": how + "/" + sfx, "result": [], "raised": "~", "what": "", "outcomes": []}
+                  "size": b["size"], "how": how + "/" + sfx, "sfx": sfx, "result": [], "raised": "~", "what": "", "outcomes": []}
             try:
                 res = s3mod.get_mos_files("bkt", **args)
                 ev["result"] = [back.get(r, -1) for r in res]
@@ -78,6 +80,12 @@ def load_case(cid, what, text, tmproot, encoding="utf-8"):
     elif encoding == "iso-8859-1":
         body = text.split("?>", 1)[1] if text.startswith("<?xml") else text
         data = ('<?xml version="1.0" encoding="ISO-8859-1"?>' + body).encode("iso-8859-1", "replace")
+    elif encoding == "latin1-utf8like":
+        # ISO-8859-1 text whose every non-ASCII byte sequence is also well-formed UTF-8 ("\u00c3\u00a9" is C3 A9): only the
+        # declaration says how to read it
+        body = text.split("?>", 1)[1] if text.startswith("<?xml") else text
+        body = "".join(ch if ord(ch) < 128 else "x" for ch in body).replace("</mosID>", "\u00c3\u00a9\u00c2\u00a3\u00c2\u00bd</mosID>", 1)
+        data = ('<?xml version="1.0" encoding="ISO-8859-1"?>' + body).encode("iso-8859-1")
     else:
         body = text.split("?>", 1)[1] if text.startswith("<?xml") else text
         data = body.encode("utf-16")
@@ -109,7 +117,7 @@ def load_case(cid, what, text, tmproot, encoding="utf-8"):
         rec("reader-s3", lambda: MosReader.from_s3("bkt", "k/doc.mos.xml").mos_object)
     finally:
         shutil.rmtree(d, ignore_errors=True)
-    return {"id": cid, "k": "load", "what": what + "/" + encoding, "outcomes": outs, "keys": [], "prefixGiven": False, "prefixKey": 0, "size": 1,
+    return {"id": cid, "k": "load", "what": what + "/" + encoding, "outcomes": outs, "keys": [], "prefixGiven": False, "prefixKey": 0, "size": 1, "sfx": "",
             "how": "", "result": [], "raised": "~"}
 
 
@@ -143,7 +151,7 @@ def run(report, tier, seed):
         for r in range(reps):
             g = Gamma("%s|load|%s|%d" % (seed, c, r))
             text = g.ro(collection.ro_shape(1000, "RO1")) if c == "RunningOrder" else g.msg(class_message(c))
-            for enc in ("utf-8", "iso-8859-1", "utf-16"):
+            for enc in ("utf-8", "iso-8859-1", "utf-16", "latin1-utf8like"):
                 events.append(load_case("d%d" % n, c, text, tmproot, encoding=enc))
                 n += 1
     shutil.rmtree(tmproot, ignore_errors=True)
